@@ -52,6 +52,33 @@ func DebugRunOne(file string) {
 	os.Stdout.Write(out)
 }
 
+// c19libRel: path (relative to the working directory, starting with "./") of a directory holding ticket.pangaea.
+var c19libRel = ""
+
+// c19setupLib writes the module file once per process (idempotent; the same content every time).
+func c19setupLib() {
+	tmp := os.Getenv("VERIF_TMP")
+	if tmp == "" {
+		tmp = os.TempDir()
+	}
+	// one directory per worker process: no other process rewrites a file while it is being imported
+	dir := filepath.Join(tmp, fmt.Sprintf("c19lib-%d", os.Getpid()))
+	os.MkdirAll(dir, 0o755)
+	os.WriteFile(filepath.Join(dir, "ticket.pangaea"), []byte("\"ticket module loaded\".p\ntickets := <{|i| yield i; recur(i + 1)}>.new(1)\nloadedAt := 'start\n"), 0o644)
+	cwd, err := os.Getwd()
+	if err != nil {
+		return
+	}
+	rel, err := filepath.Rel(cwd, dir)
+	if err != nil {
+		return
+	}
+	if !strings.HasPrefix(rel, ".") {
+		rel = "./" + rel
+	}
+	c19libRel = rel
+}
+
 var c19errKinds = []string{"Err", "AssertionErr", "NameErr", "NoPropErr", "NotImplementedErr", "StopIterErr", "SyntaxErr", "TypeErr", "ValueErr", "ZeroDivisionErr", "FileNotFoundErr"}
 
 // programs that touch shared things; they are deterministic by construction (no hash-ordered output).
@@ -59,7 +86,25 @@ func c19program(rng *rand.Rand, names []string) string {
 	n := func() string { return names[rng.Intn(len(names))] }
 	k := c19errKinds[rng.Intn(len(c19errKinds))]
 	protos := []string{"Int", "Str", "Arr", "Obj", "Kernel", "JSON", "Map", "Either", "Iterable", "Nil", "Err"}
-	switch rng.Intn(32) {
+	switch rng.Intn(36) {
+	case 34:
+		// many calls that end in an error, all handled: nothing of them is left for later programs
+		return "chk := {|n| raise ValueErr.new(\"gave up\") if n == 0; chk(n - 1)}\n(1:41)@{|i| i.try.{chk(250)}.err?}.len.p"
+	case 35:
+		// plain deep recursion
+		return fmt.Sprintf("dp := {|n| 0 if n == 0 else dp(n - 1) + 1}\ndp(%d).p", 1200+rng.Intn(400))
+	case 32, 33:
+		// a module file with a load-time effect and exported state, imported / invited by relative path: every
+		// program that imports it loads it for itself
+		if c19libRel == "" {
+			return "1.p"
+		}
+		return []string{
+			"t := import(\"" + c19libRel + "/ticket\")\nt.tickets.next.p\nt.tickets.next.p",
+			"invite!(\"" + c19libRel + "/ticket\")\ntickets.next.p",
+			"f := {|| import(\"" + c19libRel + "/ticket\").tickets.next}\n[f(), f()].p",
+			"t := import(\"" + c19libRel + "/ticket\")\nu := import(\"" + c19libRel + "/ticket\")\n[t.tickets.next, u.tickets.next, t.loadedAt].p",
+		}[rng.Intn(4)]
 	case 30:
 		// modules: names brought in by invite!/import belong to the scope that asked for them
 		return []string{"setup := {|| invite!(\"dummy\")}\nsetup()\n1.p", "invite!(\"dummy\")\nmessage.p", "m := import(\"dummy\")\nm.message.p",
@@ -217,6 +262,7 @@ func runC19(w *fw.W) {
 			return
 		}
 		walk.IncludeStack = true
+		c19setupLib()
 		ip = interp.New()
 		snap = walk.New()
 		snap.WalkEnv(ip.Const, nil)
